@@ -4,6 +4,13 @@
 //   mode acc  : critical regions through Epoch::Accessor, opened by one thread and closed by another
 //   mode big  : capacity 128 / 256 and hundreds of retirements (passes that reclaim >= 100 and >= batch)
 //   mode fix-open-stop : the fixed schedule "one region open, one retire, stop()" (DESIGN section 7 #2)
+//   mode rr-tl / rr-acc : reader-retirer threads: a thread opens a region, retires inside it, then takes NESTED
+//                         locks (depth 2-3) after that retire / tick, holds, unwinds; its own outer region is open
+//                         at its retirements (total retirements <= capacity, so a retire inside a region never
+//                         waits for its own region)
+//   mode wrap : capacity 1-2 with the queue's push / pop indices and slot versions preset to round 32766, so that
+//               the 16-bit slot version wraps while the queue is full (a collector batch held back by an open
+//               region + a full ring + one more retire, which must block across the wrap)
 // One case = one seeded program (queue capacity 1-8, 1-3 retiring threads using retire(r), retire(r, tick())
 // and batch retirement, 0-2 threads holding long regions, stop() after the retiring threads returned and a
 // PRNG-chosen delay, regions still open at stop() close later from their own / another thread) under one
@@ -152,6 +159,11 @@ struct RetirePlan {
   std::vector<Op> ops;
   int first_id = 0;
 };
+// reader-retirer: lock; retire `first` items; nested lock(s) after a tick; retire `second` items; hold; unwind
+struct RRPlan {
+  struct It { unsigned pause_us; int first; int depth; int second; bool tick_between; unsigned hold_us; int region; int first_id; };
+  std::vector<It> its;
+};
 struct RegionPlan {
   unsigned start_us;     // delay before opening
   unsigned hold_us;      // how long it stays open
@@ -181,12 +193,19 @@ static void final_checks() {
 static void run_case(uint64_t seed, const std::string& mode) {
   Rng rng(seed);
   bool big = mode == "big";
-  bool acc_style = mode == "acc";
+  bool rr = mode == "rr-tl" || mode == "rr-acc";
+  bool wrap = mode == "wrap";
+  bool acc_style = mode == "acc" || mode == "rr-acc";
   bool fix = mode == "fix-open-stop";
   size_t want_cap = big ? (rng.below(2) ? 128 : 256) : 1 + rng.below(8);
   int nret = big ? 1 + (int)rng.below(2) : 1 + (int)rng.below(3);
   int nreg_threads = big ? (int)rng.below(2) : (int)rng.below(3);
   if (fix) { want_cap = 1 + rng.below(4); nret = 1; nreg_threads = 1; acc_style = false; }
+  int nrr = 0;
+  if (rr) { want_cap = 3 + rng.below(6); nret = 0; nreg_threads = (int)rng.below(2); nrr = 1 + (int)rng.below(2); }
+  if (wrap) { want_cap = 1 + rng.below(2); nret = 1; nreg_threads = 1; acc_style = rng.below(2); }
+  size_t real_cap = 1;
+  while (real_cap < want_cap) real_cap <<= 1;
 
   // plans
   std::vector<RetirePlan> rplans(nret);
@@ -195,13 +214,16 @@ static void run_case(uint64_t seed, const std::string& mode) {
     p.first_id = nids;
     int nops = big ? 60 + (int)rng.below(120) : 1 + (int)rng.below(6);
     if (fix) nops = 1;
+    if (wrap) nops = 2 * (int)real_cap + 1 + (int)rng.below(3);   // batch held + full ring + at least one that must block
     for (int i = 0; i < nops; ++i) {
       RetirePlan::Op op;
       unsigned k = (unsigned)rng.below(10);
       op.kind = fix ? 0 : (k < 6 ? 0 : k < 8 ? 1 : 2);
+      if (wrap) op.kind = k < 7 ? 0 : 1;
       op.n = op.kind == 2 ? 2 + (int)rng.below(3) : 1;
       op.pause_us = (!big && rng.below(4) == 0) ? 200 + (unsigned)rng.below(4000) : 0;
       if (fix) op.pause_us = 2000;   // let the region open first
+      if (wrap) op.pause_us = i == 0 ? 2500 : 0;
       p.ops.push_back(op);
       nids += op.n;
     }
@@ -216,8 +238,41 @@ static void run_case(uint64_t seed, const std::string& mode) {
       r.hold_us = rng.below(3) == 0 ? (unsigned)rng.below(800) : 2000 + (unsigned)rng.below(40000);
       r.nested = rng.below(5) == 0;
       if (fix) { r.start_us = 0; r.hold_us = 30000; r.nested = false; }
+      if (wrap) { r.start_us = 0; r.hold_us = 20000 + (unsigned)rng.below(20000); }
       r.region = nregions++;
       g.push_back(r);
+      if (wrap) break;
+    }
+  }
+  // reader-retirer plans: never more retirements in total than the ring holds
+  std::vector<RRPlan> rrplans(nrr);
+  {
+    int budget = (int)real_cap;
+    for (auto& p : rrplans) {
+      int nit = 1 + (int)rng.below(3);
+      for (int i = 0; i < nit && budget > 0; ++i) {
+        RRPlan::It it;
+        it.pause_us = (unsigned)rng.below(2500);
+        // the collector's k-th sleep ends at start + sum_{i<=k}(1000 + 10 i) us of virtual time: waking at exactly
+        // that moment (or not sleeping at all before the first pass) puts lock() + retire() INSIDE a collector pass,
+        // e.g. between its epoch scan and its pop
+        if (i == 0 && rng.below(4) != 0) {
+          unsigned k = (unsigned)rng.below(4);
+          it.pause_us = 1000 * k + 10 * (k * (k + 1) / 2);
+        }
+        it.first = 1 + (int)rng.below(2);
+        if (it.first > budget) it.first = budget;
+        budget -= it.first;
+        it.depth = 1 + (int)rng.below(3);           // 1 = no nesting, 2-3 = nested locks after the retirement
+        it.tick_between = rng.below(3) == 0;
+        it.second = (it.depth > 1 && budget > 0 && rng.below(2)) ? 1 : 0;
+        budget -= it.second;
+        it.hold_us = rng.below(4) == 0 ? 0 : 1200 + (unsigned)rng.below(6000);
+        it.region = nregions++;
+        it.first_id = nids;
+        nids += it.first + it.second;
+        p.its.push_back(it);
+      }
     }
   }
   unsigned stop_delay_us = rng.below(3) == 0 ? 0 : (unsigned)rng.below(big ? 3000 : 25000);
@@ -233,13 +288,26 @@ static void run_case(uint64_t seed, const std::string& mode) {
   // not traced); region k of thread g uses accessor g, opened by thread g and closed by a helper thread
   std::vector<Epoch::Accessor> accs;
   if (acc_style)
-    for (int g = 0; g < nreg_threads; ++g) accs.push_back(ep.create_accessor());
+    for (int g = 0; g < nreg_threads + nrr; ++g) accs.push_back(ep.create_accessor());
+  // idle accessors behind the used ones only make the collector's scan longer (more steps between its read of a
+  // reader's slot and its pop of the queue)
+  if (rr && acc_style)
+    for (int g = (int)rng.below(3) * 8; g > 0; --g) accs.push_back(ep.create_accessor());
+  // wrap mode: start the ring two rounds before the 16-bit slot version wraps
+  size_t base = 0;
+  if (wrap) {
+    base = (size_t)32766 * gc._queue.capacity();
+    gc._queue._next_push_index.store(base);
+    gc._queue._next_pop_index.store(base);
+    for (size_t i = 0; i < gc._queue.capacity(); ++i)
+      gc._queue._slots.futex(i)._futex.value().store((uint16_t)(2 * 32766));
+  }
 
   vrt_trace_sleep(1);
   vrt_begin(seed);
   g_or.gc_tid = 1;
-  printf("RUN %lu cap=%zu gc=1 mode=%s retirers=%d regionthreads=%d ids=%d regions=%d\n", (unsigned long)seed, gc._queue.capacity(),
-         mode.c_str(), nret, nreg_threads, nids, nregions);
+  printf("RUN %lu cap=%zu gc=1 base=%zu mode=%s retirers=%d regionthreads=%d readerretirers=%d ids=%d regions=%d\n", (unsigned long)seed,
+         gc._queue.capacity(), base, mode.c_str(), nret, nreg_threads, nrr, nids, nregions);
   gc.start();   // first thread created in the section: tid 1
   std::vector<std::thread> reg_threads, ret_threads, closers;
   std::vector<std::unique_ptr<std::atomic<int>>> handoff;
@@ -291,6 +359,33 @@ static void run_case(uint64_t seed, const std::string& mode) {
       });
     }
   }
+  // reader-retirers: retire inside their own region, then nest
+  for (int q = 0; q < nrr; ++q) {
+    ret_threads.emplace_back([&, q] {
+      Epoch::Accessor* acc = acc_style ? &accs[nreg_threads + q] : nullptr;
+      auto lock = [&] { if (acc) acc->lock(); else ep.lock(); };
+      auto unlock = [&] { if (acc) acc->unlock(); else ep.unlock(); };
+      for (auto& it : rrplans[q].its) {
+        if (it.pause_us) usleep(it.pause_us);
+        unsigned slot = acc ? (unsigned)acc->_index : (unsigned)ThreadId::current_thread_id<Epoch>().value;
+        int id = it.first_id;
+        vrt_event("region_enter %u", slot);
+        lock();
+        g_or.region_open[it.region] = 1;
+        vrt_event("region_open %u", slot);
+        for (int i = 0; i < it.first; ++i) do_retire(gc, id++);
+        if (it.tick_between) { std::vector<int> dummy; (void)do_tick(gc, dummy); }
+        for (int d = 1; d < it.depth; ++d) lock();          // nested, after the retirement / tick
+        for (int i = 0; i < it.second; ++i) do_retire(gc, id++);
+        if (it.hold_us) usleep(it.hold_us);
+        for (int d = 1; d < it.depth; ++d) unlock();
+        if (it.depth > 1 && it.hold_us && (it.hold_us & 1)) usleep(it.hold_us / 2);   // outer region alone again
+        g_or.region_open[it.region] = 0;
+        vrt_event("region_close %u", slot);
+        unlock();
+      }
+    });
+  }
   for (int t = 0; t < nret; ++t) ret_threads.emplace_back([&, t] { run_retirer(gc, rplans[t]); });
   for (auto& t : ret_threads) t.join();
   if (stop_delay_us) usleep(stop_delay_us);
@@ -309,7 +404,7 @@ int main(int argc, char** argv) {
   std::string mode = argc > 1 ? argv[1] : "tl";
   uint64_t seed0 = argc > 2 ? strtoull(argv[2], 0, 10) : 1;
   int nruns = argc > 3 ? atoi(argv[3]) : 1;
-  if (mode != "tl" && mode != "acc" && mode != "big" && mode != "fix-open-stop") return 2;
+  if (mode != "tl" && mode != "acc" && mode != "big" && mode != "fix-open-stop" && mode != "rr-tl" && mode != "rr-acc" && mode != "wrap") return 2;
   for (int i = 0; i < nruns; ++i) run_case(seed0 + i, mode);
   return 0;
 }
